@@ -796,6 +796,55 @@ theorem check_text (f : String) (l : Nat) (n : Int) :
   have : l % 2 ^ 32 = l := Nat.mod_eq_of_lt (by omega)
   rw [this, if_pos hl]
 
+/-! ## the `operator new` overloads in front of the allocator: default and thread-safe mode -/
+
+/-- the regenerated tables (form → function pointer → function installed by
+    `turnOnDefaultNotThreadSafeNewDeleteOverloads` / `turnOnThreadSafeNewDeleteOverloads` → does the body throw on NULL)
+    say what C++ promises: in BOTH overload modes the four throwing forms turn a refused allocation into
+    `std::bad_alloc` and the two nothrow forms hand NULL to the caller -/
+theorem gen_formThrows_eq (ts : Bool) (form : String) (hf : form ∈ newForms) :
+    formThrows ts form = formThrowsSpec form := by
+  simp only [newForms, List.mem_cons, List.not_mem_nil, or_false] at hf
+  rcases hf with h | h | h | h | h | h <;> subst h <;> cases ts <;> decide
+
+/-- every overload mode installs a function for every form, and it is the form's own (`threadsafe_`)`mem_leak_` function -/
+theorem installed_new_functions (form : String) (hf : form ∈ newForms) :
+    installedNew false form = some ("mem_leak_" ++ form) ∧ installedNew true form = some ("threadsafe_mem_leak_" ++ form) := by
+  simp only [newForms, List.mem_cons, List.not_mem_nil, or_false] at hf
+  rcases hf with h | h | h | h | h | h <;> subst h <;> decide
+
+theorem familyForm_mem (fam form : String) (h : familyForm fam = some form) : form ∈ newForms := by
+  unfold familyForm at h
+  split at h <;> simp_all [newForms]
+
+/-- what the caller sees is fixed by the allocator's answer and the family alone -/
+theorem outcome_eq (ts : Bool) (fam : String) (fails : Bool) :
+    outcome ts fam fails = if fails then failureKind fam else .ok := by
+  unfold outcome failureKind
+  cases fails with
+  | false => simp
+  | true =>
+    cases hf : familyForm fam with
+    | none => simp
+    | some form => simp [gen_formThrows_eq ts form (familyForm_mem fam form hf)]
+
+/-- **The outcome of an allocation does not depend on the overload mode**: whatever the allocator answers, the caller of
+    any family sees the same thing with the thread-safe overloads as with the default ones -/
+theorem outcome_independent_of_overload_mode (fam : String) (fails : Bool) :
+    outcome true fam fails = outcome false fam fails := by
+  rw [outcome_eq, outcome_eq]
+
+/-- **Exactly the designated allocations fail, each in its family's way, in both overload modes** (regenerated allocator
+    code behind regenerated overload tables): after any history the allocation at `(file, line)` made through family
+    `fam` throws `std::bad_alloc` (throwing `new` / `new[]` forms) resp. returns NULL (nothrow forms, malloc family,
+    direct call) iff it is designated, and succeeds otherwise -/
+theorem regenerated_outcome_iff_designated (ts : Bool) (raw : Node) (h : List Op) (file : String) (line : Nat) (fam : String) :
+    outcome ts fam (genFails (genRun raw Gen.Failable.init h) file line)
+      = if designatedB h file line then failureKind fam else .ok := by
+  have hb : genFails (genRun raw Gen.Failable.init h) file line = designatedB h file line := by
+    rw [Bool.eq_iff_iff, regenerated_fails_iff_designated, designatedB_iff]
+  rw [outcome_eq, hb]
+
 /-! ## non-vacuity -/
 
 /-- the two old defects as histories: designating the 2nd allocation at foo.c:10 does not fail the
@@ -827,5 +876,12 @@ example : designatedOutcomes [] [.failAt 2 "a.c" 1, .alloc "a.c" 1, .failNum 3, 
 example : int32 10 = 10 ∧ int32 4294967295 = -1 := by decide
 example : mallocNull (afterMallocs (setCountdown cinit 3) 1) = false ∧
     mallocNull (afterMallocs (setCountdown cinit 3) 2) = true := by decide
+
+/-- the thread-safe overloads: a designated `new char[n]` under the new macro (family W) throws, the designated nothrow
+    `new[]` returns NULL, the allocation that is not designated succeeds -/
+example : outcome true "W" (genFails (genRun default Gen.Failable.init [.failNum 2, .alloc "a.c" 1]) "<harness>" 34) = .throws ∧
+    outcome true "u" (genFails (genRun default Gen.Failable.init [.failNum 2, .alloc "a.c" 1]) "<unknown>" 0) = .null ∧
+    outcome true "W" (genFails (genRun default Gen.Failable.init [.failNum 3, .alloc "a.c" 1]) "<harness>" 34) = .ok ∧
+    installedNew true "operator_new_array_debug" = some "threadsafe_mem_leak_operator_new_array_debug" := by decide
 
 end Failable
